@@ -341,6 +341,19 @@ def check_transformed(ctx: Ctx, fi: FuncInfo) -> None:
     if len(loops) != 1:
         raise AnalysisError(f"{fi.where}: loop not recognised")
     lp = loops[0]
+    if isinstance(lp.iter, ast.Call) and call_name(lp.iter) and call_name(lp.iter)[-1] in ("combinations", "combinations_with_replacement", "permutations") and len(lp.iter.args) == 2 \
+            and unparse(lp.iter.args[1]) == "2" and isinstance(lp.target, ast.Tuple) and len(lp.target.elts) == 2:
+        # the identity stat1(k) == stat2(v) is direction sensitive: each ordered pair has to be evaluated on its own
+        kind = call_name(lp.iter)[-1]
+        s1, s2 = unparse(lp.target.elts[0]), unparse(lp.target.elts[1])
+        evals = [n for n in ast.walk(lp) if isinstance(n, ast.Call) and isinstance(n.func, ast.Name) and n.func.id in ("all", "any")]
+        if len(evals) == 1:
+            missing = {"combinations": "an earlier statistic paired with itself or a later one with an earlier one", "combinations_with_replacement": "a later statistic paired with an earlier one",
+                       "permutations": "a statistic paired with itself"}[kind]
+            ctx.violation("C11-Q1", fi, lp, f"pairs come from `{unparse(lp.iter)}` and the identity {s1}(k) == {s2}(v) is evaluated once per pair: the ordered pair ({missing}) is never evaluated, "
+                          "although the identity is not symmetric in the two statistics")
+            return
+        raise AnalysisError(f"{fi.where}: pairs formed with {kind}; how both directions are evaluated is not recognised")
     if not (isinstance(lp.iter, ast.Call) and call_name(lp.iter) and call_name(lp.iter)[-1] == "product" and len(lp.iter.args) == 2 and isinstance(lp.target, ast.Tuple) and len(lp.target.elts) == 2):
         raise AnalysisError(f"{fi.where}: pairs are not formed with product(all, all)")
     a, b = unparse(lp.iter.args[0]), unparse(lp.iter.args[1])
@@ -361,8 +374,14 @@ def check_transformed(ctx: Ctx, fi: FuncInfo) -> None:
     env = Env()
     got = T(test, env)
     if got != want:
-        ctx.violation("C11-Q1", fi, lp.body[0], f"a pair is reported when `{unparse(test)[:90]}`; the defining identity is stat1(k) == stat2(v) for every (k, v) of the bijection")
-        return
+        from ..skelrules import classify_term
+
+        verdict, why = classify_term(ctx.repo, got, [want])
+        if verdict == "violation":
+            ctx.violation("C11-Q1", fi, lp.body[0], f"a pair is reported when `{unparse(test)[:90]}`; the defining identity is stat1(k) == stat2(v) for every (k, v) of the bijection ({why[:200]})")
+            return
+        if verdict != "ok":
+            raise AnalysisError(f"{fi.where}: the condition `{unparse(test)[:80]}` under which a pair is reported is not recognised")
     act = unparse(lp.body[0].body[0]) if len(lp.body[0].body) == 1 else ""
     if f"[{s1}.name].append({s2}.name)" not in act and f".setdefault({s1}.name, []).append({s2}.name)" not in act:
         if f"[{s2}.name].append({s1}.name)" in act or f"[{s1}.name].append({s1}.name)" in act or f"[{s2}.name].append({s2}.name)" in act:
@@ -490,6 +509,9 @@ def rule_prime(ctx: Ctx) -> None:
     n = f.params[0]
     body = f.body
     loops = [st for st in body if isinstance(st, ast.While)]
+    for_loops = [st for st in body if isinstance(st, ast.For)]
+    if not loops and len(for_loops) == 1:
+        return _prime_range_form(ctx, f, for_loops[0])
     if len(loops) != 1:
         raise AnalysisError(f"{f.where}: not a single trial-division loop")
     lp = loops[0]
@@ -566,6 +588,55 @@ def rule_prime(ctx: Ctx) -> None:
     if not (len(post) == 1 and unparse(post[0]) == "return True"):
         ctx.violation("C11-PR", f, post[0] if post else lp, "a number without a divisor found is not reported prime")
     _ = ok
+
+
+def _prime_range_form(ctx: Ctx, f: FuncInfo, lp: ast.For) -> None:
+    """`for i in range(5, STOP, 6): if n % i == 0 or n % (i + 2) == 0: return False` – the same wheel written with range;
+    range stops BEFORE its bound, so the bound must be floor(sqrt(n)) + 1."""
+    n = f.params[0]
+    body = f.body
+    pre, post = body[: body.index(lp)], body[body.index(lp) + 1:]
+    small = [st for st in pre if isinstance(st, ast.If)]
+    txt = [(unparse(st.test), unparse(st.body[0]) if len(st.body) == 1 else "") for st in small]
+    if not ((f"{n} <= 3", f"return {n} > 1") in txt or (f"{n} < 4", f"return {n} > 1") in txt or (f"{n} <= 3", f"return {n} >= 2") in txt):
+        raise AnalysisError(f"{f.where}: small-case branch not recognised")
+    ctx.ok("C11-PR", f.where, "n <= 3: prime iff n > 1", small[0], f)
+    filt = [t for t in txt if t[1] == "return False"]
+    if any(set(t[0].split(" or ")) == {f"{n} % 2 == 0", f"{n} % 3 == 0"} for t in filt):
+        ctx.ok("C11-PR", f.where, "multiples of 2 and 3 are rejected before the loop", small[-1], f)
+    else:
+        ctx.violation("C11-PR", f, small[-1] if small else f.node, "multiples of 2 and of 3 are not both rejected before the 6k+-1 loop (the loop never tries 2 or 3)")
+    it = lp.iter
+    if not (isinstance(it, ast.Call) and isinstance(it.func, ast.Name) and it.func.id == "range" and len(it.args) == 3 and not it.keywords and isinstance(lp.target, ast.Name)) or lp.orelse:
+        raise AnalysisError(f"{f.where}: candidate range `{unparse(it)}` not recognised")
+    i = lp.target.id
+    start, stop, step = (unparse(a) for a in it.args)
+    if start != "5":
+        ctx.violation("C11-PR", f, lp, f"trial division starts at {start}; the 6k+-1 candidates start at 5")
+    if step != "6":
+        ctx.violation("C11-PR", f, lp, f"candidates advance by {step}; the 6k+-1 wheel advances by 6")
+    else:
+        ctx.ok("C11-PR", f.where, "step 6", lp, f)
+    roots = [f"isqrt({n})", f"math.isqrt({n})", f"int({n} ** 0.5)", f"int(math.sqrt({n}))", f"int(sqrt({n}))"]
+    if stop in [f"{r} + 1" for r in roots] + [f"1 + {r}" for r in roots]:
+        ctx.ok("C11-PR", f.where, "every candidate d with d*d <= n is tried (range bound is the integer square root plus one)", lp, f)
+    elif stop in roots:
+        ctx.violation("C11-PR", f, lp, f"candidates come from `{unparse(it)}`, which stops before {stop}: a divisor d with d*d == n is never tried, so squares of primes (25, 49, 121, ...) are reported prime")
+    else:
+        raise AnalysisError(f"{f.where}: range bound `{stop}` not recognised")
+    if len(lp.body) == 1 and isinstance(lp.body[0], ast.If) and not lp.body[0].orelse:
+        t = lp.body[0]
+        parts = set(unparse(t.test).split(" or "))
+        if parts == {f"{n} % {i} == 0", f"{n} % ({i} + 2) == 0"} and len(t.body) == 1 and unparse(t.body[0]) == "return False":
+            ctx.ok("C11-PR", f.where, "each round tries i and i + 2", t, f)
+        elif parts < {f"{n} % {i} == 0", f"{n} % ({i} + 2) == 0"} and len(t.body) == 1 and unparse(t.body[0]) == "return False":
+            ctx.violation("C11-PR", f, t, f"a round tests `{unparse(t.test)}`; the candidates of a round are i and i + 2 (6k-1 and 6k+1)")
+        else:
+            raise AnalysisError(f"{f.where}: loop body not recognised")
+    else:
+        raise AnalysisError(f"{f.where}: loop body not recognised")
+    if not (len(post) == 1 and unparse(post[0]) == "return True"):
+        ctx.violation("C11-PR", f, post[0] if post else lp, "a number without a divisor found is not reported prime")
 
 
 RECORDS = {"ltrmin": ("min", "ltr"), "ltrmax": ("max", "ltr"), "_rtlmin_reverse_list": ("min", "rtl"), "_rtlmax_reverse_list": ("max", "rtl")}
@@ -855,6 +926,12 @@ def _variants():
         V("order-product", replace_expr(PE, "Perm.order", "acc * cycle // math.gcd(acc, cycle)", "acc * cycle"), "fire", "C11-RS"),
         V("ltrmin-nonstrict", replace_expr(PE, "Perm.ltrmin", "val < min_val", "val <= min_val"), "silent", note="entries are distinct: the non-strict test is the same scan"),
         V("prime-strict-bound", replace_expr("permuta/misc/math.py", "is_prime", "i ** 2 <= n", "i * i < n"), "fire", "C11-PR"),
+        V("prime-range-form-exclusive-bound", [replace_stmt("permuta/misc/math.py", "is_prime", "while i ** 2 <= n: ...", "for i in range(5, isqrt(n), 6):\n    if n % i == 0 or n % (i + 2) == 0:\n        return False"),
+                                               replace_stmt("permuta/misc/math.py", "is_prime", "i = 5", "from math import isqrt")], "fire", "C11-PR"),
+        V("prime-range-form", [replace_stmt("permuta/misc/math.py", "is_prime", "while i ** 2 <= n: ...", "for i in range(5, isqrt(n) + 1, 6):\n    if n % i == 0 or n % (i + 2) == 0:\n        return False"),
+                               replace_stmt("permuta/misc/math.py", "is_prime", "i = 5", "from math import isqrt")], "silent"),
+        V("transformed-unordered-pairs", replace_expr(ST, "PermutationStatistic.check_all_transformed", "product(all_stats, all_stats)", "combinations_with_replacement(all_stats, 2)"), "fire", "C11-Q1"),
+        V("transformed-not-any-form", replace_expr(ST, "PermutationStatistic.check_all_transformed", "all((stat1.func(k) == stat2.func(v) for k, v in bijection.items()))", "not any((stat1.func(k) != stat2.func(v) for k, v in bijection.items()))"), "silent"),
         V("prime-step-4", replace_stmt("permuta/misc/math.py", "is_prime", "i += 6", "i += 4"), "fire", "C11-PR"),
         V("prime-offset-4", replace_expr("permuta/misc/math.py", "is_prime", "n % (i + 2) == 0", "n % (i + 4) == 0"), "fire", "C11-PR"),
         V("prime-no-3-filter", replace_expr("permuta/misc/math.py", "is_prime", "n % 2 == 0 or n % 3 == 0", "n % 2 == 0"), "fire", "C11-PR"),
